@@ -40,6 +40,7 @@ func (v *FnVC) runAnchored(anchor string, pos token.Pos, extra map[string]Term) 
 				v.assume(t)
 				continue
 			}
+			v.behavClause = cl.Behav != ""
 			v.oblige("assert@"+strings.ReplaceAll(anchor, " ", ":"), v.clauseLabel(cl, i, j), t, cl.Props, true, c.String(), pos)
 		}
 	}
